@@ -110,6 +110,31 @@ def consts():
                     raise TranslateError(f"{rel}: acquire_priv loop bound not of the form `privilege_change_count > len(self.privilege_levels) * k`: {ast.dump(t)}")
         if found is None:
             raise TranslateError(f"{rel}: acquire_priv has no loop bound test on privilege_change_count")
+        # the loop's control structure (hand-transcribed into Driver.lean `acquireLoop`) is pinned here:
+        #   while True: <...>; [if NO_ACTION: ...; return]; <...>; privilege_change_count += 1; if count > len*k: ...; raise
+        loops = [n for n in ast.walk(fn) if isinstance(n, ast.While)]
+        if len(loops) != 1 or loops[0] not in fn.body:
+            raise TranslateError(f"{rel}: acquire_priv is not one top-level while loop")
+        lp = loops[0]
+        if not (isinstance(lp.test, ast.Constant) and lp.test.value is True) or lp.orelse:
+            raise TranslateError(f"{rel}: the acquire_priv loop is not `while True`")
+        if len(lp.body) < 3:
+            raise TranslateError(f"{rel}: the acquire_priv loop body is too short")
+        inc, tst = lp.body[-2], lp.body[-1]
+        if not (isinstance(inc, ast.AugAssign) and isinstance(inc.target, ast.Name) and inc.target.id == "privilege_change_count"
+                and isinstance(inc.op, ast.Add) and isinstance(inc.value, ast.Constant) and inc.value.value == 1):
+            raise TranslateError(f"{rel}: the last-but-one statement of the loop is not the unconditional `privilege_change_count += 1`")
+        if not (isinstance(tst, ast.If) and not tst.orelse and isinstance(tst.test, ast.Compare) and isinstance(tst.test.left, ast.Name)
+                and tst.test.left.id == "privilege_change_count" and isinstance(tst.body[-1], ast.Raise)):
+            raise TranslateError(f"{rel}: the last statement of the loop is not `if privilege_change_count > ...: raise`")
+        if any(isinstance(n, (ast.Continue, ast.Break)) for n in ast.walk(lp)):
+            raise TranslateError(f"{rel}: the acquire_priv loop contains continue / break")
+        rets = [n for n in ast.walk(lp) if isinstance(n, ast.Return)]
+        holders = [st for st in lp.body if isinstance(st, ast.If) and any(isinstance(n, ast.Return) for n in ast.walk(st))]
+        if len(rets) != 1 or len(holders) != 1 or "NO_ACTION" not in ast.dump(holders[0].test):
+            raise TranslateError(f"{rel}: the only way out of the loop must be the `return` under `if ... NO_ACTION`")
+        if any(isinstance(n, ast.Assign) and any(getattr(t_, "id", "") == "privilege_change_count" for t_ in n.targets) for n in ast.walk(lp)):
+            raise TranslateError(f"{rel}: privilege_change_count is re-assigned inside the loop")
         # the counter must be incremented by one inside the while loop
         inc = [n for n in ast.walk(fn) if isinstance(n, ast.AugAssign) and isinstance(n.target, ast.Name) and n.target.id == "privilege_change_count"]
         if len(inc) != 1 or not isinstance(inc[0].op, ast.Add) or not (isinstance(inc[0].value, ast.Constant) and inc[0].value.value == 1):
@@ -159,6 +184,74 @@ def cache_facts():
     if not rebuilds:
         raise TranslateError(f"{rel}: update_privilege_levels does not always rebuild the privilege graph")
     return cached, clears
+
+
+# ---------- on_open / on_close hooks of the platform drivers
+def _hook_stmts(rel, fname):
+    """the statements of a module-level hook `def <fname>(conn)`: ("acquire",) | ("command", line) | ("input", line) | ("raw", line)"""
+    fn = next((n for n in _parse(rel).body if isinstance(n, (ast.FunctionDef, ast.AsyncFunctionDef)) and n.name == fname), None)
+    if fn is None:
+        raise TranslateError(f"{rel}: hook {fname} not found")
+    arg = fn.args.args[0].arg
+
+    def is_conn(e, *attrs):
+        for a in reversed(attrs):
+            if not (isinstance(e, ast.Attribute) and e.attr == a):
+                return False
+            e = e.value
+        return isinstance(e, ast.Name) and e.id == arg
+    out, pending_write = [], None
+    for st in _body(fn):
+        where = f"{rel}:{fname}:{st.lineno}"
+        if not isinstance(st, ast.Expr):
+            raise TranslateError(f"{where}: hook statement is not a call")
+        c = _unawait(st.value)
+        if not isinstance(c, ast.Call):
+            raise TranslateError(f"{where}: hook statement is not a call")
+        kw = {k.arg: k.value for k in c.keywords}
+        if pending_write is not None:
+            if is_conn(c.func, "channel", "send_return") and not c.args and not kw:
+                out.append(("raw", pending_write))
+                pending_write = None
+                continue
+            raise TranslateError(f"{where}: channel.write is not followed by channel.send_return")
+        if is_conn(c.func, "acquire_priv"):
+            v = kw.get("desired_priv", c.args[0] if c.args else None)
+            if not is_conn(v, "default_desired_privilege_level"):
+                raise TranslateError(f"{where}: hook acquires something other than conn.default_desired_privilege_level")
+            out.append(("acquire",))
+        elif is_conn(c.func, "send_command") and set(kw) <= {"command"}:
+            out.append(("command", _cstr(kw.get("command", c.args[0] if c.args else None), where)))
+        elif is_conn(c.func, "channel", "send_input") and set(kw) <= {"channel_input"}:
+            out.append(("input", _cstr(kw.get("channel_input", c.args[0] if c.args else None), where)))
+        elif is_conn(c.func, "channel", "write") and set(kw) <= {"channel_input"}:
+            pending_write = _cstr(kw.get("channel_input", c.args[0] if c.args else None), where)
+        else:
+            raise TranslateError(f"{where}: hook statement not recognised: {ast.dump(c)[:200]}")
+    if pending_write is not None:
+        raise TranslateError(f"{rel}:{fname}: channel.write without send_return")
+    return out
+
+
+def hooks(platform):
+    """(on_open statements, on_close statements) — sync and asyncio compared; the constructors must install them by default"""
+    import importlib
+    res = []
+    for stack in ("sync", "async"):
+        rel = f"scrapli/driver/core/{platform}/{stack}_driver.py"
+        res.append((_hook_stmts(rel, f"{SHORT[platform]}_on_open"), _hook_stmts(rel, f"{SHORT[platform]}_on_close")))
+        mod = importlib.import_module(f"scrapli.driver.core.{platform}.{stack}_driver")
+        d = _construct(_drivers(platform)[stack == "async"], stack == "async")
+        if d.on_open is not getattr(mod, f"{SHORT[platform]}_on_open") or d.on_close is not getattr(mod, f"{SHORT[platform]}_on_close"):
+            raise TranslateError(f"{platform}: the {stack} constructor does not install {SHORT[platform]}_on_open / _on_close by default")
+    # the two stacks may legitimately differ here (EOS: channel.send_input vs send_command): hooks are per-stack data
+    return {"sync": res[0], "async": res[1]}
+
+
+def hook_lean(stmts):
+    def one(s):
+        return ".acquireDefault" if s[0] == "acquire" else f".{s[0]} {lstr(s[1])}"
+    return "[" + ", ".join(one(s) for s in stmts) + "]"
 
 
 # ---------- does an interactive session stop at interaction_complete_patterns?
@@ -554,7 +647,12 @@ def generate():
         b += f"def {s}Default : Name := {lstr(default_level(p))}\n"
         b += f"def {s}Abort : AbortSpec := {abort_lean(abort_spec(p))}\n"
         b += f"def {s}Sess : Option SessTemplate := {session_lean(session_template(p))}\n"
+        hk = hooks(p)
+        b += f"def {s}OnOpen : List HookStmt := {hook_lean(hk['sync'][0])}\ndef {s}OnClose : List HookStmt := {hook_lean(hk['sync'][1])}\n"
+        b += f"def {s}OnOpenAsync : List HookStmt := {hook_lean(hk['async'][0])}\ndef {s}OnCloseAsync : List HookStmt := {hook_lean(hk['async'][1])}\n"
     b += "\ndef platforms : List (String × Table × Name × AbortSpec × Option SessTemplate) := [\n  "
     b += ",\n  ".join(f"({lstr(p)}, {SHORT[p]}, {SHORT[p]}Default, {SHORT[p]}Abort, {SHORT[p]}Sess)" for p in PLATFORMS) + "]\n"
+    b += "\ndef onOpenHooks : List (List HookStmt) := [" + ", ".join(f"{SHORT[p]}OnOpen, {SHORT[p]}OnOpenAsync" for p in PLATFORMS) + "]\n"
+    b += "def onCloseHooks : List (List HookStmt) := [" + ", ".join(f"{SHORT[p]}OnClose, {SHORT[p]}OnCloseAsync" for p in PLATFORMS) + "]\n"
     b += "end Scrapli.Gen.Priv\n"
     return [("ScrapliModel/Gen/PrivConsts.lean", a), ("ScrapliModel/Gen/PrivTables.lean", b)]
